@@ -352,16 +352,21 @@ def _worker(job):
     except OSError:
         pass
     n = job["n"]
-    if n not in _SETUP:
-        _SETUP[n] = Setup(n)
-    S = _SETUP[n]
-    rng = random.Random(job.get("seed", 0))
-    if job["kind"] == "trappist":
-        r = trappist_config(S, job["problem"], job["reverse"], tuple(job["ens"]), rng)
-    elif job["kind"] == "rfp":
-        r = rfp_config(S, rng)
-    else:
-        r = {"status": "unsat" if order_lemma(S) else "violation", "detail": "order lemma"}
+    try:
+        if n not in _SETUP:
+            _SETUP[n] = Setup(n)
+        S = _SETUP[n]
+        rng = random.Random(job.get("seed", 0))
+        if job["kind"] == "trappist":
+            r = trappist_config(S, job["problem"], job["reverse"], tuple(job["ens"]), rng)
+        elif job["kind"] == "rfp":
+            r = rfp_config(S, rng)
+        else:
+            r = {"status": "unsat" if order_lemma(S) else "violation", "detail": "order lemma"}
+    except Exception as e:
+        # the emitted program no longer has the structure the lifting relies on (a rule family appeared / disappeared):
+        # the lifted encoding does not answer; the API harness and the per-model engine still decide the property
+        r = {"status": "unmodelled", "detail": f"lifting failed: {type(e).__name__}: {e}"[:200]}
     r["job"] = job
     return r
 
